@@ -48,19 +48,34 @@ example : nextToken ([45, 48, 46, 48, 48] ++ [32, 109]) = .tok (.number [45, 48,
   C21_number_token _ _ _ (.dec ⟨[45], [48], [48, 48], Or.inr rfl, by decide, by decide, by decide, rfl⟩)
     (Or.inr ⟨32, [109], rfl, by decide⟩)
 
-/-- names over the bytes the tokenizer does not interpret (no white space, delimiter, `#`; valid
-    UTF-8) are read back unchanged — partial: see `C21_witness_name_hash` (and property C30) -/
-theorem C21_name_token_partial (n rest : List Nat) (h : NameOk n) (hr : TermOk rest) :
+/-- **names, full** (since the name operands go through `escape_pdf_name_bytes`): EVERY name a
+    Rust `String` can hold — white space, delimiters, `#`, controls, non-ASCII included — is read
+    back by the content tokenizer as exactly that name, and ends where it was meant to end -/
+theorem C21_name_token (n rest : List Nat) (h : NameOk n) (hr : TermOk rest) :
     nextToken (bytesOf (.name n) ++ rest) = .tok (.name n) rest := by
   simp only [bytesOf, List.cons_append, nextToken]
   rw [nextTok_slash, readName_ok n _ h hr]
 
-example : nextToken (bytesOf (.name [70, 49]) ++ [32]) = .tok (.name [70, 49]) [32] :=
-  C21_name_token_partial _ _ ⟨by decide, by decide⟩ (Or.inr ⟨32, [], rfl, by decide⟩)
+example : nextToken (bytesOf (.name [77, 121, 32, 35, 47, 40, 195, 169]) ++ [32]) =
+    .tok (.name [77, 121, 32, 35, 47, 40, 195, 169]) [32] :=
+  C21_name_token _ _ ⟨by decide, by decide⟩ (Or.inr ⟨32, [], rfl, by decide⟩)
 
-/-- a raw `#` in a name is decoded by the parser: `/A#42 Do` is read back as name `AB` -/
-theorem C21_witness_name_hash :
-    nextToken (bytesOf (.name [65, 35, 52, 50]) ++ [32]) = .tok (.name [65, 66]) [32] := by decide
+/-- the pre-repair emission (`/` + raw bytes) was correct only for names without white space,
+    delimiter and `#` -/
+theorem C21_raw_name_token_partial (n rest : List Nat) (h : RawNameOk n) (hr : TermOk rest) :
+    nextToken (47 :: n ++ rest) = .tok (.name n) rest := by
+  simp only [List.cons_append, nextToken]
+  rw [nextTok_slash, readName_raw n _ h hr]
+
+example : nextToken (47 :: [70, 49] ++ [32]) = .tok (.name [70, 49]) [32] :=
+  C21_raw_name_token_partial _ _ ⟨by decide, by decide⟩ (Or.inr ⟨32, [], rfl, by decide⟩)
+
+/-- regression statement about the pre-repair emission: a raw `#` in a name is decoded by the
+    parser, `/A#42 Do` is read back as name `AB`; the escaped emission reads back `A#42` -/
+theorem C21_old_witness_name_hash :
+    nextToken (47 :: [65, 35, 52, 50] ++ [32]) = .tok (.name [65, 66]) [32] ∧
+    nextToken (bytesOf (.name [65, 35, 52, 50]) ++ [32]) = .tok (.name [65, 35, 52, 50]) [32] := by
+  decide
 
 /-! ## 2. the tokenizer on whole streams -/
 
@@ -144,7 +159,8 @@ inductive Safe : Op → Prop where
   | setRenderingMode (n : Nat) (h : n ≤ 2147483647) : Safe (.setRenderingMode n)
   /-- the `Display` text of a finite size is a decimal token or an integer within `i32` -/
   | setFont (n : List Nat) (size : Flt) (disp : List Nat) (h : NameOk n)
-      (hd : size.isFinite = true → IsDecTok disp ∨ ∃ i, IsIntTok disp i) : Safe (.setFont n size disp)
+      (hd : size.isFinite = true → IsDecTok disp ∨ IsPlainInt disp) : Safe (.setFont n size disp)
+  | rawClipRect (x y w h : Flt) : Safe (.rawClipRect x y w h)
   | showText (k : Esc) (bs : List Nat) (h : ∀ b ∈ bs, b < 256) : Safe (.showText k bs)
   | showTextHex (bs : List Nat) (h : ∀ b ∈ bs, b < 256) : Safe (.showTextHex bs)
   | comment (t : List Nat) (h : ∀ b ∈ t, b ≠ 10) : Safe (.comment t)
@@ -169,6 +185,19 @@ theorem numArg_int (t : List Nat) (i : Int) (h : IsIntTok t i) : numArg t = .num
     simp [numArg, hdot, parseI32, hs, hd, hv, isEmpty_false_of_ne t hne]
   · have hdot := digits_no_dot d hd
     simp [numArg, hdot, parseI32, splitSign, hd, hv, isEmpty_false_of_ne d hne]
+
+theorem tf_plain_parse (n disp : List Nat) (h : IsPlainInt disp) :
+    parseOps' [.name n, tokOfPlain disp, .operator [84, 102]] [] =
+      [⟨[84, 102], [.name n, numArg disp]⟩] := by
+  have hd := plain_no_dot disp h
+  have hc : disp.contains 46 = false := by
+    cases hcc : disp.contains 46
+    · rfl
+    · exact absurd (List.contains_iff_mem.mp hcc) hd
+  unfold tokOfPlain numArg
+  cases hp : parseI32 disp
+  · simp only [hc, Bool.false_eq_true, if_false]; rfl
+  · simp only [hc, Bool.false_eq_true, if_false]; rfl
 
 theorem zero_int : IsIntTok [48] 0 := Or.inl ⟨by decide, by decide, by decide, by decide⟩
 
@@ -270,11 +299,15 @@ theorem good_of_safe (fmt : Fmt) (hf : FmtOk fmt) (o : Op) (h : Safe o) : Good f
   | setRenderingMode n hn => exact ⟨_, opOk_int fmt (.setRenderingMode n) n [84, 114] rfl hn (by decide) (by decide), rfl⟩
   | setFont n size disp hn hd =>
     by_cases hfin : size.isFinite = true
-    · rcases hd hfin with hdec | ⟨i, hint⟩
+    · rcases hd hfin with hdec | hpl
       · refine ⟨_, opOk_tf fmt n size disp (.number disp) hn (by simp only [hfin, if_true]; exact .dec hdec), ?_⟩
         simp only [canon, hfin, if_true, numArg_dec disp hdec]; rfl
-      · refine ⟨_, opOk_tf fmt n size disp (.integer i) hn (by simp only [hfin, if_true]; exact .int i hint), ?_⟩
-        simp only [canon, hfin, if_true, numArg_int disp i hint]; rfl
+      · have hnr : NumRead (if size.isFinite = true then disp else [48]) (tokOfPlain disp) := by
+          rw [if_pos hfin]; exact .plain hpl
+        have hok := opOk_tf fmt n size disp (tokOfPlain disp) hn hnr
+        have hcn : canon fmt (.setFont n size disp) = [⟨[84, 102], [.name n, numArg disp]⟩] := by
+          simp only [canon, hfin, if_true]
+        exact ⟨_, hok, by rw [hcn]; exact tf_plain_parse n disp hpl⟩
     · have hfin' : size.isFinite = false := by simpa using hfin
       refine ⟨_, opOk_tf fmt n size disp (.integer 0) hn
         (by simp only [hfin', Bool.false_eq_true, if_false]; exact .int 0 zero_int), ?_⟩
@@ -284,6 +317,8 @@ theorem good_of_safe (fmt : Fmt) (hf : FmtOk fmt) (o : Op) (h : Safe o) : Good f
   | showTextHex bs hb =>
     exact ⟨_, opOk_show fmt (.showTextHex bs) (.hex bs) bs (.hexStr bs) rfl (.hex bs hb) rfl (by simp), rfl⟩
   | comment t ht => exact ⟨_, opOk_comment fmt t ht, rfl⟩
+  | rawClipRect x y w hh =>
+    exact ⟨_, opOk_clipRect fmt hf x y w hh, by simp only [canon, na]; rfl⟩
 
 /-- **C21, partial**: for every formatter whose `{:.N}` output is a decimal token and every list
     (of any length) of operators from the covered families — path construction and painting,
@@ -292,8 +327,10 @@ theorem good_of_safe (fmt : Fmt) (hf : FmtOk fmt) (o : Op) (h : Safe o) : Good f
     without line feeds — the emitted content stream parses back to exactly the authored
     operators with the written operands.
     MISSING from the covered families (modelled and checked by the correspondence run only):
-    `sc`/`SC` component lists, dash arrays, `TJ` arrays, the marked-content `BDC` operators,
-    `clip_rect`'s raw path. -/
+    `sc`/`SC` component lists, dash arrays, `TJ` arrays, the marked-content `BDC` operators.
+    Since the repairs, names need no hypothesis beyond being a Rust `String` (`NameOk`), font
+    sizes of any magnitude are covered (`IsPlainInt`), and `clip_rect`'s path is covered for
+    every argument. -/
 theorem C21_roundtrip_partial (fmt : Fmt) (hf : FmtOk fmt) (ops : List Op) (h : ∀ o ∈ ops, Safe o) :
     parseContent (serializeOps fmt ops) = some (canonAll fmt ops) :=
   C21_roundtrip_of_good fmt ops (fun o ho => good_of_safe fmt hf o (h o ho))
@@ -322,31 +359,38 @@ example : parseContent (serializeOps fmtConst
 /-- the operator keywords of a parse result (operands are not decidably comparable) -/
 def kws (r : Option (List Parsed)) : Option (List (List Nat)) := r.map (List.map Parsed.kw)
 
-/-- a font size of 3·10⁹ (`Display` prints `3000000000`, beyond `i32`): the tokenizer fails on
-    the number and **everything from there to the end of the page is dropped** — the parse is
-    empty although a `Tf` and an `S` were authored -/
-theorem C21_witness_font_size_beyond_i32 :
+/-- REPAIRED (regression statement about `readNumberOld`, the pre-repair `read_number`): a font
+    size of 3·10⁹ is written as `3000000000`; the old tokenizer failed on it (and
+    `parse_content` then dropped the rest of the page), the repaired one reads a real; the whole
+    stream now parses to the authored `Tf` and `S` -/
+theorem C21_old_witness_big_integer :
+    readNumberOld ([51, 48, 48, 48, 48, 48, 48, 48, 48, 48] ++ [32]) = .err ∧
+    readNumber ([51, 48, 48, 48, 48, 48, 48, 48, 48, 48] ++ [32]) =
+      .tok (.number [51, 48, 48, 48, 48, 48, 48, 48, 48, 48]) [32] ∧
     kws (parseContent (serializeOps fmtReal
-      [.setFont [70] (.fin false 3000000000 0) [51, 48, 48, 48, 48, 48, 48, 48, 48, 48], .stroke])) =
-      some [] ∧
-    kws (some (canonAll fmtReal
       [.setFont [70] (.fin false 3000000000 0) [51, 48, 48, 48, 48, 48, 48, 48, 48, 48], .stroke])) =
       some [[84, 102], [83]] := by
-  constructor <;> decide +kernel
+  refine ⟨by decide +kernel, by decide +kernel, by decide +kernel⟩
 
-/-- `clip_rect(-inf, …)`: `{:.3}` prints `-inf`, which is a tokenizer error: the rectangle, the
-    clip and the rest of the stream (here `S`) are lost -/
-theorem C21_witness_clip_rect_neg_inf :
+/-- REPAIRED (regression statement about `clipRectPiecesOld`, the pre-repair `Raw` of
+    `clip_rect`): with `-inf` the old bytes were a tokenizer error — rectangle, clip and the rest
+    of the stream (here `S`) lost; the repaired emission parses to `re W n S` -/
+theorem C21_old_witness_clip_rect_neg_inf :
+    kws (parseContent (render (clipRectPiecesOld (.inf true) Flt.zero Flt.zero Flt.zero ++
+      [.kw [83], .nl]))) = some [] ∧
     kws (parseContent (serializeOps fmtReal
-      [.rawClipRect (.inf true) Flt.zero Flt.zero Flt.zero, .stroke])) = some [] := by
-  decide +kernel
+      [.rawClipRect (.inf true) Flt.zero Flt.zero Flt.zero, .stroke])) =
+      some [[114, 101], [87], [110], [83]] := by
+  refine ⟨by decide +kernel, by decide +kernel⟩
 
-/-- `clip_rect(NaN, 0, 0, 0)`: `NaN` is read as an unknown operator and swallows the operands:
-    the `re` is lost, `W n` then clip whatever path was current -/
-theorem C21_witness_clip_rect_nan :
+/-- REPAIRED: with `NaN` the old bytes lost the `re` (`NaN` read as an unknown operator that
+    swallows the operands), `W n` then clipped whatever path was current -/
+theorem C21_old_witness_clip_rect_nan :
+    kws (parseContent (render (clipRectPiecesOld .nan Flt.zero Flt.zero Flt.zero))) =
+      some [[87], [110]] ∧
     kws (parseContent (serializeOps fmtReal [.rawClipRect .nan Flt.zero Flt.zero Flt.zero])) =
-      some [[87], [110]] := by
-  decide +kernel
+      some [[114, 101], [87], [110]] := by
+  refine ⟨by decide +kernel, by decide +kernel⟩
 
 /-- `Op::Comment` with a line feed breaks out of the comment (not reachable through the public
     API, whose two comments are constants) -/
